@@ -91,3 +91,59 @@ func checkAddrText(c addrText) *rp.Fail {
 	}
 	return nil
 }
+
+// The JSON decoders of the list-like types take text that people write: weekday lists with ranges in either direction, other
+// separators and abbreviations, alone and inside time-profile and task documents - a value or an error, never a crash.
+type dayText struct {
+	S string `json:"text"`
+}
+
+func genDayText(t *rapid.T) dayText {
+	days := []string{"Monday", "Tuesday", "Wednesday", "Thursday", "Friday", "Saturday", "Sunday"}
+	n := rapid.IntRange(1, 4).Draw(t, "tokens")
+	var toks []string
+	for i := 0; i < n; i++ {
+		a, b := days[rapid.IntRange(0, 6).Draw(t, "a")], days[rapid.IntRange(0, 6).Draw(t, "b")]
+		tok := a
+		if rapid.Bool().Draw(t, "range") {
+			tok = a + rapid.SampledFrom([]string{"-", "-", "..", " to ", "/", "–", ":", "+", "--", "-,"}).Draw(t, "sep") + b
+		}
+		switch rapid.IntRange(0, 5).Draw(t, "form") {
+		case 0:
+			tok = strings.ToLower(tok)
+		case 1:
+			tok = strings.ToUpper(tok)
+		case 2:
+			if len(tok) > 3 {
+				tok = tok[:3]
+			}
+		case 3:
+			tok = " " + tok + " "
+		}
+		toks = append(toks, tok)
+	}
+	return dayText{S: strings.Join(toks, rapid.SampledFrom([]string{",", ",", ", ", ";", " "}).Draw(t, "join"))}
+}
+
+func checkDayText(c dayText) *rp.Fail {
+	ev.Case("weekday-text", true, c.S)
+	js, _ := json.Marshal(c.S)
+	docs := map[string]func(){
+		"types.Weekdays.UnmarshalJSON":      func() { var w types.Weekdays; json.Unmarshal(js, &w) },
+		"types.Weekdays.UnmarshalJSON/used": func() { w := types.Weekdays{}; json.Unmarshal(js, &w) },
+		"types.TimeProfile.UnmarshalJSON": func() {
+			var p types.TimeProfile
+			json.Unmarshal([]byte(fmt.Sprintf(`{"id":29,"start-date":"2024-01-01","end-date":"2024-12-31","weekdays":%s,"segments":[{"start":"08:30","end":"17:00"}]}`, js)), &p)
+		},
+		"types.Task.UnmarshalJSON": func() {
+			var k types.Task
+			json.Unmarshal([]byte(fmt.Sprintf(`{"task":"unlock door","door":3,"start-date":"2024-01-01","end-date":"2024-12-31","weekdays":%s,"start":"08:30"}`, js)), &k)
+		},
+	}
+	for name, f := range docs {
+		if p := try(f); p != nil {
+			return rp.Failf(name+"/panic", "%s with the weekday text %q panicked: %v", name, c.S, p)
+		}
+	}
+	return nil
+}
